@@ -28,6 +28,10 @@ type tlv struct {
 	bits  uint64 // FLOAT, DOUBLE
 	str   []byte // STRING1/4, SimpleList payload
 	kids  []tlv  // LIST elems, MAP k/v alternating, STRUCT members
+	beg   int    // offset of the head
+	body  int    // offset just after the head
+	end   int    // offset just after the field
+	lenBeg, lenEnd int // offsets of the embedded length/count (strings, simple lists, lists, maps)
 }
 
 var errRef = errors.New("ref: malformed")
@@ -78,14 +82,21 @@ func parseLen(b []byte, p int, depth int) (int, int, error) {
 }
 
 func parseField(b []byte, p int, depth int) (tlv, int, error) {
+	f, q, err := parseField1(b, p, depth)
+	f.end = q
+	return f, q, err
+}
+
+func parseField1(b []byte, p int, depth int) (tlv, int, error) {
 	if depth > 200 {
 		return tlv{}, p, refErr("nesting too deep")
 	}
+	beg := p
 	ty, tag, p, err := parseHead(b, p)
 	if err != nil {
 		return tlv{}, p, err
 	}
-	f := tlv{tag: tag, ty: ty}
+	f := tlv{tag: tag, ty: ty, beg: beg, body: p}
 	switch ty {
 	case 0:
 		if err := need(b, p, 1); err != nil {
@@ -128,6 +139,7 @@ func parseField(b []byte, p int, depth int) (tlv, int, error) {
 			return f, p, err
 		}
 		n := int(b[p])
+		f.lenBeg, f.lenEnd = p, p+1
 		p++
 		if err := need(b, p, n); err != nil {
 			return f, p, err
@@ -139,6 +151,7 @@ func parseField(b []byte, p int, depth int) (tlv, int, error) {
 			return f, p, err
 		}
 		n64 := binary.BigEndian.Uint32(b[p:])
+		f.lenBeg, f.lenEnd = p, p+4
 		p += 4
 		if uint64(n64) > uint64(len(b)) {
 			return f, p, refErr("string4 length %d exceeds input", n64)
@@ -154,6 +167,7 @@ func parseField(b []byte, p int, depth int) (tlv, int, error) {
 		if err != nil {
 			return f, q, err
 		}
+		f.lenBeg, f.lenEnd = p, q
 		p = q
 		if n > len(b) {
 			return f, p, refErr("map count %d exceeds input", n)
@@ -178,6 +192,7 @@ func parseField(b []byte, p int, depth int) (tlv, int, error) {
 		if err != nil {
 			return f, q, err
 		}
+		f.lenBeg, f.lenEnd = p, q
 		p = q
 		if n > len(b) {
 			return f, p, refErr("list count %d exceeds input", n)
@@ -233,6 +248,7 @@ func parseField(b []byte, p int, depth int) (tlv, int, error) {
 		if err != nil {
 			return f, q2, err
 		}
+		f.lenBeg, f.lenEnd = q, q2
 		p = q2
 		if err := need(b, p, n); err != nil {
 			return f, p, err
